@@ -1,7 +1,7 @@
 (* C04 - the application's actions, the callback interpreter at every nesting depth, whole histories. *)
 Require Import ZArith List Bool Lia.
 Require Import Verif.IpcLifeModel Verif.IpcLifeProofs Verif.IpcLifeProofs2 Verif.IpcLifeProofs3 Verif.IpcLifeProofs4
-               Verif.IpcLifeProofs5 Verif.IpcLifeProofs6.
+               Verif.IpcLifeProofs5 Verif.IpcLifeProofs6 Verif.IpcLifeTrace.
 Import ListNotations.
 Open Scope Z_scope.
 
@@ -224,8 +224,24 @@ Proof.
   - intros Nd. apply (GI_not_destroyed_alive _ _ _ _ G Nd).
 Qed.
 
-Lemma lifecycle_all : forall shm depth ops, exists w z, run shm true depth ops world0 = Ok w z /\ GI0 w.
+Lemma lifecycle_all : forall shm depth ops,
+  exists w z, run shm true depth ops world0 = Ok w z /\ GI0 w /\ TI w.
 Proof.
   intros. pose proof (run_ok shm depth ops world0 GI_world0) as S.
-  destruct (run shm true depth ops world0) as [w z|e w]; simpl in S; [eauto | contradiction].
+  pose proof (run_T shm true depth ops world0 TI_world0) as T.
+  destruct (run shm true depth ops world0) as [w z|e w]; simpl in S, T; [eauto | contradiction].
 Qed.
+
+(* the callback log of a run that ended in Fail, too, is consistent with the ghost phases up to the failing call: for
+   the code as found this is what makes the refutation witnesses statements about callback traces *)
+Lemma trace_consistent_any_variant : forall shm fixed depth ops,
+  match run shm fixed depth ops world0 with Ok w _ => TI w | Fail _ _ => True end.
+Proof. intros. exact (run_T shm fixed depth ops world0 TI_world0). Qed.
+
+Lemma trace_example :
+  tphs [ECb KDestroyed 0%nat 0; ECb KClosed 0%nat 0; ECb KClosed 0%nat 1; ECb KMsg 0%nat 0; ECb KCreated 0%nat 0;
+        ECb KAccept 0%nat 0; ENew 0%nat] 0%nat = Some PDead /\
+  tphs [ECb KMsg 0%nat 0; ECb KClosed 0%nat 0; ECb KCreated 0%nat 0; ECb KAccept 0%nat 0; ENew 0%nat] 0%nat = None /\
+  tphs [ECb KDestroyed 0%nat 0; ECb KClosed 0%nat 1; ECb KCreated 0%nat 0; ECb KAccept 0%nat 0; ENew 0%nat] 0%nat = None /\
+  tphs [ECb KClosed 0%nat 0; ECb KAccept 0%nat 0; ENew 0%nat] 0%nat = None.
+Proof. vm_compute. repeat split; reflexivity. Qed.
